@@ -106,6 +106,53 @@ DgEdge(m, x, y) ==
 DgPieceKind(m, x, y) == IF DgKind(m, DgNormal(x, y)) = "arc" THEN "arc" ELSE "straight"
 
 (***************************************************************************)
+(* Small polygons: the object shrunk by the loxodromic Lox(1, q) (axis: the *)
+(* diameter from (-1,0) to (1,0) of the disc = the vertical X = 0 of the    *)
+(* half-plane), which multiplies half-plane coordinates by 1/q and moves    *)
+(* the object towards the boundary point (-1, 0) of the disc.  For q up to  *)
+(* 10^5 the integer vectors of the image exceed 32 bits, so the image is    *)
+(* described through the ORIGINAL vectors x, y and q.  The normal n of an   *)
+(* edge becomes n' with  n'1 - n'2 = q (n1 - n2),  n'1 + n'2 = (n1 + n2)/q  *)
+(* (up to a common factor) and <n',n'> = <n,n>, so                          *)
+(*   half-plane: straight iff n1 = n2, else the radius is r / q;            *)
+(*   Poincare:   2 q n'1 = q^2 (n1 - n2) + (n1 + n2):                       *)
+(*               n1 = n2 = 0: a diameter (the axis);                        *)
+(*               n1 = n2 # 0 (a vertical of the half-plane): the radius     *)
+(*                 q |n3| / |n1| GROWS with q and crosses the threshold;    *)
+(*               n1 # n2: radius below 2 sqrt<n,n> / (q - 1).               *)
+(* DgShrinkLaws checks this against the integer image for small q.          *)
+(***************************************************************************)
+DgShrinkCoordHP(v, q) == <<R(0 - v[3], (v[1] - v[2]) * q), R(DgS(v), (v[1] - v[2]) * q)>>
+\* no end point at infinity; radius = Threshold exactly excluded (floating-point comparison in the code)
+DgShrinkOK(x, y, q) == LET n == DgNormal(x, y) IN
+                       /\ ~DgAtInf(x) /\ ~DgAtInf(y)
+                       /\ (n[1] = n[2] /\ n[1] # 0) => q * Abs(n[3]) # Threshold * Abs(n[1])
+\* q at least 30 and entries of x, y at most 12: every other circular piece has radius < 2 * 1.5 * 300 / 29 < Threshold
+DgShrinkPieceKind(m, x, y, q) ==
+  LET n == DgNormal(x, y) IN
+  CASE m = "halfplane" -> IF n[1] = n[2] THEN "straight" ELSE "arc"
+    [] m = "poincare" -> IF n[1] # n[2] THEN "arc"
+                         ELSE IF n[1] = 0 THEN "straight"
+                         ELSE IF q * Abs(n[3]) < Threshold * Abs(n[1]) THEN "arc" ELSE "straight"
+    [] m = "klein" -> "straight"
+\* the same statements on the integer image (q small enough for 32 bits)
+DgShrinkLaws(x, y, q) ==
+  LET T == Iso!Lox(1, q)
+      tx == Iso!Act(T, x)
+      ty == Iso!Act(T, y)
+      n == DgNormal(x, y)
+      tn == DgNormal(tx, ty)
+  IN /\ DgRat(DgCoord("halfplane", tx)) = DgShrinkCoordHP(x, q)
+     /\ (DgW("halfplane", tn) = 0) <=> (n[1] = n[2])
+     /\ (DgW("poincare", tn) = 0) <=> (n[1] = 0 /\ n[2] = 0)
+     /\ (n[1] # n[2]) => DgRadSq("halfplane", tn) = RDiv(DgRadSq("halfplane", n), RInt(q * q))
+     \* 2 q n'1 = +-(q^2 (n1 - n2) + (n1 + n2)) up to the common factor of Prim
+     /\ LET a == q * q * (n[1] - n[2]) + (n[1] + n[2]) IN
+        R(tn[1] * tn[1], MNorm(tn)) = R(a * a, 4 * q * q * MNorm(n))
+     \* verticals of the half-plane: Poincare radius q |n3| / |n1|
+     /\ (n[1] = n[2] /\ n[1] # 0) => DgRadSq("poincare", tn) = R(q * q * n[3] * n[3], n[1] * n[1])
+
+(***************************************************************************)
 (* Horospheres: centre xi (ideal), through x (interior).  A = -<x, xi> > 0 *)
 (*   poincare   radius A / (s xi1 + A), centre (1 - radius) (xi2, xi3)/xi1 *)
 (*   halfplane  radius A / (s (xi1 - xi2)), centre (-xi3/(xi1 - xi2), radius); *)
